@@ -9,6 +9,9 @@ From RsM Require Import Model.Tlv Model.TlvSpec
   Proofs.TlvFacts Proofs.TlvTotal Proofs.TlvWriter Proofs.TlvRoundtrip
   Proofs.TlvWithin Proofs.TlvScalar Proofs.TlvReencode Proofs.TlvIter Proofs.TlvDecodeInv
   Proofs.TlvMonitor.
+From RsM Require Import Model.TlvDerive Model.TlvBuf Proofs.TlvDeriveFacts Proofs.TlvDeriveTotal
+  Proofs.TlvDeriveRoundtrip Proofs.TlvDeriveLenient Proofs.TlvDeriveZoo Proofs.TlvBufFacts
+  Proofs.TlvBufDerive.
 Import ListNotations.
 Open Scope N_scope.
 
@@ -164,6 +167,143 @@ Proof.
 Qed.
 Print Assumptions C16_monitors_sound.
 
+
+(** * Derived encoders ([#[derive(ToTLV, FromTLV)]]), generically
+
+    [dty] describes a derived type (integers of all widths, bool, floats,
+    octets, UTF-8, [Option] fields, [Nullable], [Vec]/slices/arrays,
+    structures with context-tagged fields - [datatype = "list"], [tagval],
+    [start] -, tagged-union enums, unit enums, nesting); [denc]/[ddec] are
+    what the macro emits composed with the hand-written impls
+    ([Model/TlvDerive.v]).  For EVERY well-formed description and EVERY
+    value of that type, under any tag and followed by anything: *)
+Theorem C16_derive_roundtrip : forall (d : dty) (t : tag) (v : dval) (bs rest : bytes),
+  wf_dty d -> has_ty d v -> wf_tag t -> denc d t v = ROk bs ->
+  blen (bs ++ rest) < two63 -> ddec d (bs ++ rest) = ROk v.
+Proof. exact derive_roundtrip. Qed.
+Print Assumptions C16_derive_roundtrip.
+
+(** what a derived encoder writes is one well-formed TLV element with the tag asked for
+    (so all the reader theorems above apply to it) *)
+Theorem C16_derive_encodes_element : forall (d : dty) (t : tag) (v : dval) (bs : bytes),
+  wf_dty d -> has_ty d v -> wf_tag t -> denc d t v = ROk bs ->
+  exists x, bs = encode x /\ wf_tree x /\ root_tag x = t.
+Proof. exact derive_encodes_tree. Qed.
+Print Assumptions C16_derive_encodes_element.
+
+(** Unknown extra fields are skipped (and field order does not matter): a
+    container of the same kind that holds anything at all, as long as the
+    first child under each field's tag is the one the encoder wrote,
+    decodes to the value that was written. *)
+Theorem C16_derive_unknown_fields_skipped :
+  forall (k : ckind) (fs : list (N * dty)) (t : tag) (vs : list dval) (bs : bytes),
+  wf_dty (DStruct k false fs) -> has_ty (DStruct k false fs) (XRec vs) -> wf_tag t ->
+  denc (DStruct k false fs) t (XRec vs) = ROk bs ->
+  exists cs, bs = encode (Node t k cs) /\
+    forall t' all_cs rest,
+      wf_list all_cs ->
+      (forall ft, In ft (map fst fs) -> lookup_tree ft all_cs = lookup_tree ft cs) ->
+      blen (encode (Node t' k all_cs) ++ rest) < two63 ->
+      ddec (DStruct k false fs) (encode (Node t' k all_cs) ++ rest) = ROk (XRec vs).
+Proof. exact derive_struct_lenient. Qed.
+Print Assumptions C16_derive_unknown_fields_skipped.
+
+(** inserting a child whose tag is not the tag looked for changes no lookup *)
+Theorem C16_unknown_child_invisible : forall (k : N) (pre : list tree) (x : tree) (post : list tree),
+  root_tag x <> TgCtx k -> lookup_tree k (pre ++ x :: post) = lookup_tree k (pre ++ post).
+Proof. exact lookup_tree_insert. Qed.
+Print Assumptions C16_unknown_child_invisible.
+
+(** A missing mandatory field is an error (never a default value, never a panic). *)
+Theorem C16_derive_missing_mandatory_is_error :
+  forall (k : ckind) (fs : list (N * dty)) (t : tag) (all_cs : list tree) (rest : bytes)
+         (ft : N) (fd : dty),
+  In (ft, fd) fs -> is_option fd = false ->
+  wf_list all_cs -> lookup_ctx ft all_cs = None ->
+  blen (encode (Node t k all_cs) ++ rest) < two63 ->
+  exists e, ddec (DStruct k false fs) (encode (Node t k all_cs) ++ rest) = RErr e.
+Proof. exact derive_missing_mandatory. Qed.
+Print Assumptions C16_derive_missing_mandatory_is_error.
+
+(** Decoding never panics: for every description (well-formed or not) and every byte string. *)
+Theorem C16_derive_decode_total : forall (d : dty) (el : bytes),
+  blen el < two63 -> safe (ddec d el).
+Proof. exact safe_ddec. Qed.
+Print Assumptions C16_derive_decode_total.
+
+(** "naked" enums (no enclosing structure), at top level *)
+Theorem C16_derive_naked_enum_roundtrip :
+  forall (vs : list (N * dty)) (t : tag) (v : dval) (bs rest : bytes),
+  NoDup (map fst vs) -> Forall (fun f => fst f < 256 /\ wf_dty (snd f)) vs ->
+  has_ty (DEnum true vs) v -> denc (DEnum true vs) t v = ROk bs ->
+  blen (bs ++ rest) < two63 -> ddec (DEnum true vs) (bs ++ rest) = ROk v.
+Proof. exact derive_naked_roundtrip. Qed.
+Print Assumptions C16_derive_naked_enum_roundtrip.
+
+(** * The writer with a capacity ([WriteBuf])
+
+    A run of bytes goes in completely, or as far as there is room and then
+    NoSpace; in both cases what the buffer held below its end is untouched. *)
+Theorem C16_writebuf_write : forall (bs : bytes) (w : wbuf),
+  wb_ok w ->
+  let k := N.min (blen bs) (wb_size w - wb_end w) in
+  exists w',
+    wb_write_all w bs =
+      ((if blen bs <=? wb_size w - wb_end w then ROk tt else RErr E_NOSPACE), w') /\
+    pres (wb_end w) w w' /\ wb_end w' = wb_end w + k /\
+    firstn (N.to_nat (wb_end w + k)) (wb_mem w')
+      = firstn (N.to_nat (wb_end w)) (wb_mem w) ++ firstn (N.to_nat k) bs.
+Proof. exact wb_write_all_spec. Qed.
+Print Assumptions C16_writebuf_write.
+
+(** Any script of writer calls, anchors and rewinds to recorded anchors -
+    whatever succeeds or fails in between - followed by a rewind to the
+    first anchor restores exactly the bytes the buffer held at that anchor
+    (what the chunker of C14 relies on). *)
+Theorem C16_writebuf_rewind_restores : forall (w : wbuf) (ops : list bop),
+  wb_ok w ->
+  let w' := snd (wb_run w [] (BAnchor :: ops ++ [BRewind 0])) in
+  wb_as_slice w' = wb_as_slice w /\ wb_end w' = wb_end w /\
+  firstn (N.to_nat (wb_end w)) (wb_mem w') = firstn (N.to_nat (wb_end w)) (wb_mem w).
+Proof. exact wb_anchor_rewind_restores. Qed.
+Print Assumptions C16_writebuf_rewind_restores.
+
+(** no script ever disturbs what lies below the position it started at *)
+Theorem C16_writebuf_prefix_intact : forall (ops : list bop) (w : wbuf),
+  wb_ok w -> pres (wb_end w) w (snd (wb_run w [] ops)).
+Proof.
+  intros ops w Hok. destruct Hok as (Hs & Hst & He).
+  apply wb_run_pres; [repeat split; assumption|exact Hst|apply N.le_refl|constructor].
+Qed.
+Print Assumptions C16_writebuf_prefix_intact.
+
+(** The derived encoders on a buffer: Ok exactly when the encoding fits,
+    and then the buffer received exactly the bytes of [denc]; NoSpace
+    otherwise; the prefix is intact in every case; a structure / enum that
+    could not be written completely leaves the buffer exactly as it was. *)
+Theorem C16_derive_capacity : forall (d : dty) (t : tag) (v : dval) (bs : bytes) (w : wbuf),
+  denc d t v = ROk bs -> wb_ok w ->
+  (blen bs <= wb_size w - wb_end w ->
+     denc_wb d t v w = wb_write_all w bs /\ fst (denc_wb d t v w) = ROk tt) /\
+  (wb_size w - wb_end w < blen bs -> fst (denc_wb d t v w) = RErr E_NOSPACE).
+Proof. exact denc_wb_spec. Qed.
+Print Assumptions C16_derive_capacity.
+
+Theorem C16_derive_prefix_intact : forall (d : dty) (t : tag) (v : dval) (w : wbuf),
+  wb_ok w -> pres (wb_end w) w (snd (denc_wb d t v w)).
+Proof.
+  intros d t v w Hok. destruct Hok as (Hs & Hst & He).
+  apply denc_wb_keeps; [repeat split; assumption|exact Hst|apply N.le_refl].
+Qed.
+Print Assumptions C16_derive_prefix_intact.
+
+Theorem C16_derive_atomic : forall (d : dty) (t : tag) (v : dval) (w : wbuf),
+  atomic_ty d = true -> wb_ok w -> fst (denc_wb d t v w) <> ROk tt ->
+  wb_end (snd (denc_wb d t v w)) = wb_end w /\
+  wb_as_slice (snd (denc_wb d t v w)) = wb_as_slice w.
+Proof. exact denc_wb_atomic. Qed.
+Print Assumptions C16_derive_atomic.
+
 (** * The defects that were repaired (DESIGN section 8, F9)
 
     On the unrepaired code ([*_legacy] transcriptions) totality is false;
@@ -217,3 +357,33 @@ Example C16_ex_total_hostile :
   forallb (fun r => ocl_ok (ocl_of r))
     (probe_all [0x15; 0x30; 0x01; 0x13; 255; 255; 255; 255; 255; 255; 255; 255; 0x18]) = true.
 Proof. vm_compute. reflexivity. Qed.
+
+(** the zoo (the derived types the harness instantiates, wire structs included) is well-formed *)
+Example C16_ex_zoo_wf :
+  Forall (fun i => match zoo i with Some d => wf_dty d | None => False end)
+    [0; 1; 2; 3; 4; 5; 6; 8; 10; 11; 12; 13; 14; 15; 16; 17; 20; 21; 22; 23; 24].
+Proof. exact zoo_wf. Qed.
+
+(** AttrPath {endpoint: 1, cluster: 6, attr: 0} as a TLV list; an unknown field and another
+    order decode to the same value; without a mandatory field (DataVersionFilter.data_ver) it is an error *)
+Example C16_ex_derive :
+  denc (DStruct KList false [(0, DOption DBool); (1, DOption u64_); (2, DOption u16_); (3, DOption u32_);
+                             (4, DOption u32_); (5, DOption (DNullable u16_))]) TgAnon
+       (XRec [XNone; XNone; XSome (XInt 1); XSome (XInt 6); XSome (XInt 0); XNone])
+    = ROk [0x17; 0x24; 2; 1; 0x24; 3; 6; 0x24; 4; 0; 0x18] /\
+  ddec (DStruct KList false [(0, DOption DBool); (1, DOption u64_); (2, DOption u16_); (3, DOption u32_);
+                             (4, DOption u32_); (5, DOption (DNullable u16_))])
+       [0x17; 0x24; 4; 0; 0x24; 77; 9; 0x24; 3; 6; 0x24; 2; 1; 0x18]
+    = ROk (XRec [XNone; XNone; XSome (XInt 1); XSome (XInt 6); XSome (XInt 0); XNone]) /\
+  ddec (DStruct KStruct false [(0, DStruct KList false [(0, DOption u64_); (1, u16_); (2, u32_)]); (1, u32_)])
+       [0x15; 0x37; 0; 0x24; 1; 1; 0x24; 2; 6; 0x18; 0x18] = RErr E_TM.
+Proof. repeat split; vm_compute; reflexivity. Qed.
+
+(** a structure into a buffer one byte too small: NoSpace, and the three bytes before it untouched *)
+Example C16_ex_capacity :
+  let w0 := snd (wb_write_all (wb_new (repeat 0 9)) [0x15; 0x24; 0]) in
+  let r := denc_wb z_inner TgAnon (XRec [XInt 7; XNone; XBool true]) w0 in
+  fst r = RErr E_NOSPACE /\ wb_as_slice (snd r) = ROk [0x15; 0x24; 0] /\
+  fst (denc_wb z_inner TgAnon (XRec [XInt 7; XNone; XBool true])
+         (snd (wb_write_all (wb_new (repeat 0 10)) [0x15; 0x24; 0]))) = ROk tt.
+Proof. repeat split; vm_compute; reflexivity. Qed.
